@@ -133,8 +133,14 @@ func reachable(start *ssa.BasicBlock, banned map[Edge]bool) map[*ssa.BasicBlock]
 	return seen
 }
 
-// AllPathsThroughEdges reports whether every path from the function entry to
-// block target traverses at least one edge of the set.
+// AllPathsThroughEdges reports whether every feasible path from the function
+// entry to block target traverses at least one edge of the set. Feasibility is
+// decided for one idiom only: a branch on `p == nil` / `p != nil` where p is a
+// phi of the most recent merge block — the incoming value selected by the edge
+// the path entered the merge through decides the branch when it is the nil
+// constant or a value that cannot be nil (a boxed concrete error, the result of
+// an error constructor). This makes "collect the failure in err, test it once"
+// equivalent to one early return per failure.
 func AllPathsThroughEdges(f *ssa.Function, target *ssa.BasicBlock, edges []Edge) bool {
 	if len(f.Blocks) == 0 {
 		return false
@@ -146,7 +152,116 @@ func AllPathsThroughEdges(f *ssa.Function, target *ssa.BasicBlock, edges []Edge)
 	if len(banned) == 0 {
 		return false
 	}
-	return !reachable(f.Blocks[0], banned)[target]
+	type state struct {
+		b     *ssa.BasicBlock
+		merge *ssa.BasicBlock
+		pred  int
+		facts string // ";name=n" (nil) / ";name=v" (non-nil) for values tested on the way
+	}
+	factOf := func(facts string, v ssa.Value) (isNil, known bool) {
+		if k, isK := v.(*ssa.Const); isK && k.IsNil() {
+			return true, true
+		}
+		if DefinitelyNonNilError(v, 2) {
+			return false, true
+		}
+		if strings.Contains(facts, ";"+v.Name()+"=n;") {
+			return true, true
+		}
+		if strings.Contains(facts, ";"+v.Name()+"=v;") {
+			return false, true
+		}
+		return false, false
+	}
+	start := state{b: f.Blocks[0], pred: -1, facts: ";"}
+	seen := map[state]bool{start: true}
+	work := []state{start}
+	for len(work) > 0 {
+		st := work[len(work)-1]
+		work = work[:len(work)-1]
+		if st.b == target {
+			return false
+		}
+		// decide the branch if possible, or learn from it
+		only := -1
+		var tested ssa.Value
+		testedNilOn := -1 // successor index on which tested is nil
+		if ifi, ok := st.b.Instrs[len(st.b.Instrs)-1].(*ssa.If); ok {
+			cond, neg := ifi.Cond, false
+			for {
+				if u, isU := cond.(*ssa.UnOp); isU && u.Op == token.NOT {
+					cond, neg = u.X, !neg
+					continue
+				}
+				break
+			}
+			if bo, isB := cond.(*ssa.BinOp); isB && (bo.Op == token.EQL || bo.Op == token.NEQ) {
+				var x ssa.Value
+				if k, isK := bo.Y.(*ssa.Const); isK && k.IsNil() {
+					x = bo.X
+				} else if k, isK := bo.X.(*ssa.Const); isK && k.IsNil() {
+					x = bo.Y
+				}
+				if x != nil && IsErrorType(x.Type()) {
+					v := x
+					if ph, isPh := x.(*ssa.Phi); isPh && ph.Block() == st.merge && st.pred >= 0 && st.pred < len(ph.Edges) {
+						v = ph.Edges[st.pred]
+					}
+					nilOnTrue := bo.Op == token.EQL
+					if neg {
+						nilOnTrue = !nilOnTrue
+					}
+					if isNil, known := factOf(st.facts, v); known {
+						if isNil == nilOnTrue {
+							only = 0
+						} else {
+							only = 1
+						}
+					} else if _, isPh := v.(*ssa.Phi); !isPh {
+						tested = v
+						if nilOnTrue {
+							testedNilOn = 0
+						} else {
+							testedNilOn = 1
+						}
+					}
+				}
+			}
+		}
+		for i, sc := range st.b.Succs {
+			if only >= 0 && i != only {
+				continue
+			}
+			if banned[Edge{st.b, sc}] {
+				continue
+			}
+			ns := state{b: sc, merge: st.merge, pred: st.pred, facts: st.facts}
+			if tested != nil && len(ns.facts) < 200 && !strings.Contains(ns.facts, ";"+tested.Name()+"=") {
+				if i == testedNilOn {
+					ns.facts += tested.Name() + "=n;"
+				} else {
+					ns.facts += tested.Name() + "=v;"
+				}
+			}
+			if len(sc.Preds) > 1 {
+				ns.merge = sc
+				ns.pred = -1
+				for j2, pb := range sc.Preds {
+					if pb == st.b {
+						ns.pred = j2
+						if i == 0 {
+							break // first listing = the true arm when both arms lead here
+						}
+					}
+				}
+			}
+			if !seen[ns] {
+				seen[ns] = true
+				work = append(work, ns)
+			}
+		}
+	}
+	return true
 }
 
 // Unop strips conversions and ChangeType wrappers.
@@ -691,4 +806,29 @@ func CallGuardEdgesDeep(f *ssa.Function, isTarget func(*ssa.Call) bool, depth in
 		}
 	})
 	return out
+}
+
+// IsFullRead: the instruction is io.ReadFull(r, b), or io.ReadAtLeast(r, b, min)
+// with min equal to the length of b (len(b) itself, or the constant width of a
+// constant-bounded slice) — which is the definition of ReadFull.
+func IsFullRead(in ssa.Instruction) bool {
+	if IsCallTo(in, "io", "ReadFull") {
+		return true
+	}
+	if !IsCallTo(in, "io", "ReadAtLeast") {
+		return false
+	}
+	args := in.(ssa.CallInstruction).Common().Args
+	if len(args) != 3 {
+		return false
+	}
+	if Sym(args[2]) == "len("+Sym(args[1])+")" {
+		return true
+	}
+	if w, ok := ConstSliceWidth(args[1]); ok {
+		if k, isK := ConstInt(args[2]); isK && k == w {
+			return true
+		}
+	}
+	return false
 }
